@@ -22,6 +22,7 @@ func (x *Exec) newFrame(fn *ssa.Function, parent *Frame) *Frame {
 	fr := &Frame{x: x, fn: fn, id: x.frameSeq, env: map[ssa.Value]Term{}, tuples: map[ssa.Value][]Term{},
 		allocRef: map[*ssa.Alloc]Term{}, params: map[string]sval{}}
 	if parent != nil {
+		fr.rgTop = parent.rgOwner()
 		fr.depth = parent.depth + 1
 		fr.stack = append(append([]*ssa.Function{}, parent.stack...), fn)
 	} else {
@@ -204,7 +205,7 @@ func (fr *Frame) callStatic(in ssa.Instruction, f *ssa.Function, args []Term) []
 			return fr.freshResults(f.Signature)
 		}
 	}
-	if ct := e.cf.Funcs[key]; ct != nil && !ct.Lemma {
+	if ct := e.cf.Funcs[key]; ct != nil && !ct.Lemma && !fr.rgInlined(key) {
 		return fr.callContract(in, f, ct, args)
 	}
 	// inline if affordable
